@@ -46,7 +46,7 @@ Definition d_c15 (op : string) (a : val) : option val :=
               Some (VL [VL (map v_coords ds); v_outcome (fun _ => VL []) res;
                         voxel_map (read_back ds) sx sy sz (j_nch j);
                         voxel_map (designated (j_code j) (sx, sy, sz) (j_dirs j)) sx sy sz (j_nch j);
-                        vbool (c15_guard j); vbool (slice_axis_forward (j_code j)); vbool (job_wf j)])
+                        vbool (c15_wf j); vbool (job_wf j)])
           | _ => Some (VL [VL (map v_coords ds); v_outcome (fun _ => VL []) res])
           end
       | None => Some bad end
@@ -56,7 +56,7 @@ Definition d_c15 (op : string) (a : val) : option val :=
       match getZs s, getZs p with
       | Some s, Some p => Some (v_outcome vZs (permute s p))
       | _, _ => Some bad end
-  | "slice_indices", VL [VZ len; VZ start; VZ stop; VZ step] =>
-      Some (vZs (slice_indices len start stop step))
+  | "slice_indices", VL [VZ len; VZ start; stop; VZ step] =>
+      Some (vZs (slice_indices len start (match stop with VZ s => Some s | _ => None end) step))
   | _, _ => None
   end.
